@@ -1,6 +1,10 @@
 //! C05 — `Csr` (directed / undirected) and `adj::List` histories: every public constructor, mutator and
 //! reader, in- and out-of-range arguments, all index widths, rows on both sides of the 32-entry
 //! binary-search cut-off, random insertion orders, `from_sorted_edges` on sorted / unsorted / duplicate input.
+//! Two extra case kinds (wave 5): `bsearch` — `<[T]>::binary_search` itself against the mirror's search (sorted
+//! slices of 0–80 entries, hits and misses); `obs` — a `Csr<_, _, _, u8>` built by `with_nodes(n)`, `n > 256`,
+//! i.e. BEYOND the capacity of the index type (no check in `with_nodes`): outside the property's quantifier, recorded
+//! as an observation that is compared exactly with the mirror and never judged.
 use crate::common::*;
 use crate::rng::Rng;
 use petgraph::adj::{EdgeIndex as AEdgeIndex, List};
@@ -40,6 +44,12 @@ type G<Ty, Ix> = Csr<i32, i32, Ty, Ix>;
 type FromSorted<Ty, Ix> = fn(&[(Ix, Ix, i32)]) -> Result<G<Ty, Ix>, EdgesNotSorted>;
 
 fn dump_csr<Ty: EdgeType, Ix: IndexType>(ctx: &mut Ctx, g: &G<Ty, Ix>) {
+    dump_csr_as(ctx, g, "dump")
+}
+
+/// the full observation through the public API; every per-node reader is called with `Ix::new(i)`, `i` in `0..n`
+/// (the identity within the capacity of the index type; beyond it — `obs` cases — the index wraps, and so does the mirror)
+fn dump_csr_as<Ty: EdgeType, Ix: IndexType>(ctx: &mut Ctx, g: &G<Ty, Ix>, req: &str) {
     let r = catch(|| {
         let n = g.node_count();
         let ix = |i: usize| Ix::new(i);
@@ -75,7 +85,7 @@ fn dump_csr<Ty: EdgeType, Ix: IndexType>(ctx: &mut Ctx, g: &G<Ty, Ix>) {
             er
         )
     });
-    ctx.line("dump", &or_panic(r));
+    ctx.line(req, &or_panic(r));
 }
 
 fn crow<Ty: EdgeType, Ix: IndexType>(ctx: &mut Ctx, g: &G<Ty, Ix>, a: usize, kmax: usize) {
@@ -811,6 +821,196 @@ fn full_add_node<Ix: IndexType>(ctx: &mut Ctx, rng: &mut Rng, g: &mut List<i32, 
     }
 }
 
+// ------------------------------------------------------------------------------------------------
+// recorded observation: `with_nodes(n)` beyond the capacity of the index type (u8)
+
+/// `Csr::<_, _, Ty, u8>::with_nodes(n)`, `n > 256`: `with_nodes` does no capacity check, the nodes `256..n` cannot be
+/// named.  Outside the property's quantifier (props/C05.json, `C05_csr_with_nodes_beyond_capacity`): every line is
+/// prefixed `obs` — the driver compares it exactly with the mirror and judges nothing.  Node arguments are printed as
+/// the index the API really receives (`Ix::new(u).index()` = `u mod 256`).
+fn run_csr_obs<Ty: EdgeType>(ctx: &mut Ctx, rng: &mut Rng, case: u64) {
+    type Ix = u8;
+    let directed = Ty::is_directed();
+    ctx.raw(&format!(
+        "case {} csr {} w=8 dbg={}",
+        case,
+        if directed { "dir" } else { "undir" },
+        if cfg!(debug_assertions) { 1 } else { 0 }
+    ));
+    let n = match rng.below(8) {
+        0 => 257,
+        1 => 258,
+        2 => 300,
+        3 => 511,
+        4 => 512,
+        5 => 513,
+        _ => 257 + rng.below(344),
+    };
+    let mut g: G<Ty, Ix> = Csr::with_nodes(n);
+    ctx.line(&format!("obs with_nodes {}", n), "ok");
+    dump_csr_as(ctx, &g, "obs dump");
+    let ix = |u: usize| <Ix as IndexType>::new(u);
+    let nops = 12 + rng.below(25);
+    for _ in 0..nops {
+        // a node the caller would like to name: anywhere in 0..n+2, mostly in the part that wraps
+        let node = |rng: &mut Rng| -> usize {
+            match rng.below(4) {
+                0 => rng.below(256),
+                1 => 256 + rng.below(n - 256),
+                2 => rng.below(8),
+                _ => rng.below(n + 2),
+            }
+        };
+        let mut mutating = false;
+        match rng.weighted(&[30, 4, 3, 5, 3, 8, 6, 5, 5, 5, 5, 5]) {
+            0 => {
+                let (a, b) = (ix(node(rng)), ix(node(rng)));
+                let wt = rng.range(-3, 4) as i32;
+                if rng.chance(50) {
+                    let r = catch(|| g.add_edge(a, b, wt));
+                    ctx.line(&format!("obs add_edge {} {} {}", a.index(), b.index(), wt), &r.map(|v| v.to_string()).unwrap_or("panic".into()));
+                } else {
+                    let r = match g.try_add_edge(a, b, wt) {
+                        Ok(v) => format!("ok {}", v),
+                        Err(petgraph::csr::CsrError::IndicesOutBounds(x, y)) => format!("err {} {}", x, y),
+                    };
+                    ctx.line(&format!("obs try_add_edge {} {} {}", a.index(), b.index(), wt), &r);
+                }
+                mutating = true;
+            }
+            1 => {
+                // more nodes than the index type has values: the capacity assert of add_node fires
+                let wt = rng.range(-2, 9) as i32;
+                let r = catch(|| g.add_node(wt).index());
+                ctx.line(&format!("obs add_node {}", wt), &r.map(|x| x.to_string()).unwrap_or("panic".into()));
+                mutating = true;
+            }
+            2 => {
+                g.clear_edges();
+                ctx.line("obs clear_edges", "ok");
+                mutating = true;
+            }
+            3 => {
+                let a = ix(node(rng));
+                let wt = rng.range(-2, 9) as i32;
+                let r = catch(|| { g[a] = wt; });
+                ctx.line(&format!("obs set_weight {} {}", a.index(), wt), if r.is_some() { "ok" } else { "panic" });
+                mutating = true;
+            }
+            4 => {
+                g = g.clone();
+                ctx.line("obs clone", "ok");
+                mutating = true;
+            }
+            5 => {
+                let (a, b) = (ix(node(rng)), ix(node(rng)));
+                let r = catch(|| g.contains_edge(a, b));
+                ctx.line(&format!("obs contains {} {}", a.index(), b.index()), &r.map(|v| v.to_string()).unwrap_or("panic".into()));
+            }
+            6 => {
+                let a = ix(node(rng));
+                let r = catch(|| g.out_degree(a));
+                ctx.line(&format!("obs out_degree {}", a.index()), &r.map(|v| v.to_string()).unwrap_or("panic".into()));
+            }
+            7 => {
+                let a = ix(node(rng));
+                let r = catch(|| list(g.neighbors_slice(a).iter().map(|x| x.index())));
+                ctx.line(&format!("obs nslice {}", a.index()), &or_panic(r));
+            }
+            8 => {
+                let a = ix(node(rng));
+                let r = catch(|| list(g.edges_slice(a).iter()));
+                ctx.line(&format!("obs eslice {}", a.index()), &or_panic(r));
+            }
+            9 => {
+                let a = ix(node(rng));
+                let r = catch(|| {
+                    recs(IntoEdges::edges(&g, a)
+                        .map(|e| format!("{}:{}:{}:{}", e.id(), e.source().index(), e.target().index(), e.weight()))
+                        .collect())
+                });
+                ctx.line(&format!("obs edges {}", a.index()), &or_panic(r));
+            }
+            10 => {
+                let a = ix(node(rng));
+                let r = catch(|| g[a]);
+                ctx.line(&format!("obs index {}", a.index()), &r.map(|v| v.to_string()).unwrap_or("panic".into()));
+            }
+            _ => dump_csr_as(ctx, &g, "obs dump"),
+        }
+        if mutating {
+            dump_csr_as(ctx, &g, "obs dump");
+        }
+    }
+    dump_csr_as(ctx, &g, "obs dump");
+}
+
+// ------------------------------------------------------------------------------------------------
+// `<[T]>::binary_search` itself (what `find_edge_pos` calls on rows of 32 and more entries)
+
+/// sorted slices of 0–80 entries (lengths on both sides of the cut-off), strictly ascending (the shape of a `Csr`
+/// row: exact comparison with the mirror's search) or with repeated entries (any matching position is allowed:
+/// judged by the documented contract only); keys: hits, gaps, below the first and above the last entry.
+/// Element types `u8` / `u32` / `usize` — the `NodeIndex<Ix>` instantiations `find_edge_pos` searches.
+fn run_bsearch(ctx: &mut Ctx, rng: &mut Rng, case: u64) {
+    ctx.raw(&format!("case {} bsearch", case));
+    let nslices = 6 + rng.below(5);
+    for _ in 0..nslices {
+        let len = match rng.below(10) {
+            0 => 0,
+            1 => 1,
+            2 => 2 + rng.below(3),
+            3 => 31,
+            4 => 32,
+            5 => 33,
+            6 => 80,
+            _ => rng.below(81),
+        };
+        let strict = !rng.chance(25);
+        // values: step 1 (dense, every key hits), small steps, or large steps (mostly misses)
+        let step_max = *rng.pick(&[1usize, 2, 3, 3, 5]);
+        let mut xs: Vec<usize> = Vec::with_capacity(len);
+        let mut cur = rng.below(4);
+        for _ in 0..len {
+            let step = if strict { 1 + rng.below(step_max) } else { rng.below(step_max.max(2)) };
+            cur += step;
+            xs.push(cur);
+        }
+        let top = xs.last().copied().unwrap_or(3) + 3;
+        let ety = if top <= 255 { rng.below(3) } else { 1 + rng.below(2) };
+        let mut keys: Vec<usize> = vec![];
+        if !xs.is_empty() {
+            keys.push(xs[0]);
+            keys.push(*xs.last().unwrap());
+            keys.push(xs[0].saturating_sub(1));
+            for _ in 0..4 { keys.push(*rng.pick(&xs)); }
+        }
+        keys.push(0);
+        keys.push(top);
+        for _ in 0..5 { keys.push(rng.below(top + 1)); }
+        if len >= 31 && len <= 33 {
+            // around the cut-off: every key
+            keys = (0..=top).collect();
+        }
+        let shown = list(xs.iter());
+        for x in keys {
+            let r = match ety {
+                0 => {
+                    let v: Vec<u8> = xs.iter().map(|&y| y as u8).collect();
+                    v.binary_search(&(x as u8))
+                }
+                1 => {
+                    let v: Vec<u32> = xs.iter().map(|&y| y as u32).collect();
+                    v.binary_search(&(x as u32))
+                }
+                _ => xs.binary_search(&x),
+            };
+            let ans = match r { Ok(i) => format!("ok {}", i), Err(i) => format!("err {}", i) };
+            ctx.line(&format!("bsearch {} {}", shown, x), &ans);
+        }
+    }
+}
+
 pub fn run(ctx: &mut Ctx, case: u64) {
     // a panic outside the per-call `catch`es is a harness bug (or an implementation panic in a place
     // where none is possible): report it instead of dying silently
@@ -825,6 +1025,19 @@ fn run_inner(ctx: &mut Ctx, case: u64) {
     let fs16: FromSorted<Directed, u16> = |e| Csr::from_sorted_edges(e);
     let fs32: FromSorted<Directed, u32> = |e| Csr::from_sorted_edges(e);
     let fs64: FromSorted<Directed, usize> = |e| Csr::from_sorted_edges(e);
+    // the two extra kinds take fixed residues of the case number (2.5 % of the cases each), so every other case
+    // is generated exactly as before
+    match case % 40 {
+        13 => return run_bsearch(ctx, &mut rng, case),
+        27 => {
+            return if (case / 40) % 2 == 0 {
+                run_csr_obs::<Directed>(ctx, &mut rng, case)
+            } else {
+                run_csr_obs::<Undirected>(ctx, &mut rng, case)
+            }
+        }
+        _ => {}
+    }
     match rng.below(12) {
         0 => run_csr::<Directed, u8>(ctx, &mut rng, case, 8, Some(fs8)),
         1 => run_csr::<Directed, u16>(ctx, &mut rng, case, 16, Some(fs16)),
